@@ -182,7 +182,7 @@ PROPS = {
                 aspects=['hist:taintadds', 'hist:untaints', 'hist:resize', 'hist:delta'], monitors=['C06'],
                 theorems=['Esc.P.C06_bands', 'Esc.P.C06_triggers', 'Esc.P.C06_triggers_off', 'Esc.P.C06_taint_rate', 'Esc.P.C06_idle_band',
                           'Esc.P.C06_up_never_taints', 'Esc.P.C06_down_never_adds', 'Esc.P.taintLoop_count_all_ok',
-                          'Esc.P.C06_starve_iff', 'Esc.P.C06_starve_scales_up', 'Esc.P.C06_float_bands', 'Esc.P.C06_rne64_bands', 'Esc.P.C06_decision_exact', 'Esc.P.C06_up_never_removes', 'Esc.P.C06_up_shape', 'Esc.P.C06_taint_walks_on', 'Esc.P.gen_calcPercentUsage_eq', 'Esc.P.gen_calcScaleUpDelta_vals', 'Esc.P.gen_bandSwitch_vals', 'Esc.P.gen_bandSwitch_sentinel', 'Esc.P.C06_source_bands', 'Esc.P.gen_decide_translation_complete', 'Esc.P.gen_taintClamp_eq', 'Esc.P.C03_source_clamp'],
+                          'Esc.P.C06_starve_iff', 'Esc.P.C06_starve_scales_up', 'Esc.P.C06_float_bands', 'Esc.P.C06_rne64_bands', 'Esc.P.C06_decision_exact', 'Esc.P.C06_up_never_removes', 'Esc.P.C06_up_shape', 'Esc.P.C06_taint_walks_on', 'Esc.P.gen_calcPercentUsage_eq', 'Esc.P.gen_calcScaleUpDelta_vals', 'Esc.P.gen_bandSwitch_vals', 'Esc.P.gen_bandSwitch_sentinel', 'Esc.P.C06_source_bands', 'Esc.P.gen_decide_translation_complete', 'Esc.P.gen_taintClamp_eq', 'Esc.P.C03_source_clamp', 'Esc.P.gen_isScaleOnStarve_eq', 'Esc.P.gen_scaleOnMaxNodeAge_eq', 'Esc.P.C06_source_triggers_off', 'Esc.P.gen_triggers_translation_complete'],
                 technique='Lean 4 theorem (band case analysis for any rounding function; exact taint count when no attempt fails; journal shape of the idle and scale-up branches) + differential correspondence at threshold neighbourhoods + exact-rational band oracle and documented-starve oracle as monitors',
                 level_text='C06_bands: the decision is -fast / -slow / 0 / scale-up formula according to where max(cpu%,mem%) (as computed) lies relative to the three thresholds (as converted), for every rounding function; C06_taint_rate: exactly min(rate, untainted - min) nodes are tainted when no attempt fails; '
                            'C06_idle_band: decision 0 yields only reaping; C06_up_never_taints; C06_triggers: starve / max-age only raise the decision to >= 1; C06_starve_iff: the starve trigger computed from the largest-pending / largest-available digests is exactly the documented condition (option on, some pending pod asks in CPU or memory for more than any untainted node has left, untainted < max_nodes), so C06_starve_scales_up: under that condition the decision is >= 1 in every band. C06_float_bands / C06_rne64_bands: for every rounding function obeying the standard model with u <= 2^-43 (binary64: 2^-53, proved for the executed rne64) the band decision is the one the EXACT utilisation max(100Rc/Cc, 100Rm/Cm) dictates whenever it is outside a relative neighbourhood of 2^-40 of a threshold; inside that neighbourhood either side is accepted (monitor likewise). '
@@ -399,7 +399,7 @@ SOURCE_NOTES = {
     'C03': 'Tie B (scale_down.go): gen_taintClamp_eq; C03_source_clamp — the translated head of scaleDownTaint taints min(asked, untainted - min_nodes) and refuses iff fewer than min_nodes are untainted.',
     'C04': 'Tie B (scale_up.go): gen_clampedNodesToAdd_eq; C04_source_clamp — what the translated head of scaleUpCloudProviderNodeGroup goes on to request never exceeds min(max_nodes, cloud max), lands exactly on it when clamped, and is unchanged below it.',
     'C05': 'Tie B (util.go): gen_calcPercentUsage_eq, gen_calcScaleUpDelta_vals/_sentinel — the translated arithmetic equals the model for every rounding function; C05_source_in_region: run in binary64 it gives N <= n + delta <= N + 1 in the proven region.',
-    'C06': 'Tie B (controller.go, util.go, scale_down.go): gen_bandSwitch_vals/_sentinel, C06_source_bands — the translated switch decides -fast / -slow / 0 / scale-up by band; C03_source_clamp gives the taint amount min(rate, untainted - min_nodes).',
+    'C06': 'Tie B (controller.go, util.go, scale_down.go): gen_bandSwitch_vals/_sentinel, C06_source_bands — the translated switch decides -fast / -slow / 0 / scale-up by band; C03_source_clamp gives the taint amount min(rate, untainted - min_nodes); gen_isScaleOnStarve_eq / gen_scaleOnMaxNodeAge_eq: the two documented triggers, as translated, are the model\'s (C06_source_triggers_off: switched off, they never fire).',
     'C09': 'Tie B (controller.go filterNodes): gen_classifyNode_eq; C09_source_cordoned — outside dry mode a cordoned node goes to the cordoned list and to no other.',
     'C10': 'Tie B (scale_down.go): C01_source_reaper (a protected candidate is never handed on), C10_source_no_holdback (an eligible unprotected one is, whatever stands next to it: the verdict is per candidate).',
     'C11': 'The assembly of the program (cmd/main.go) is run in the built program (stream assemble, hook cmd/verif_hooks.go) against Esc.assemble: assemble_dry, assemble_dry_other_entries_irrelevant; main_wiring (regenerated facts about func main): the controller gets --drymode and the assembled groups, nothing else. Tie B: C01_source_reaper / gen_forceAppend_eq — neither reaper hands anything on in dry mode.',
